@@ -748,6 +748,22 @@ impl Visitor for GridVisitor {
                 }
                 return Ok(());
             }
+            7 => {
+                // skip_to_end twice (two finder threads), also when it comes late (after the end): stays ended
+                it.skip_to_end();
+                it.skip_to_end();
+                if it.next().is_some() {
+                    return Err("a pull after skip_to_end (called twice) delivered an element".into());
+                }
+                if it.next_chunk(3).is_some() {
+                    return Err("a chunk pull after skip_to_end (called twice) delivered elements".into());
+                }
+                it.skip_to_end();
+                if it.next_id_and_value().is_some() || it.has_more() != HasMore::No || it.try_get_len() != Some(0) {
+                    return Err(format!("after skip_to_end (called three times) has_more is {:?}, try_get_len {:?}, or a pull delivered", it.has_more(), it.try_get_len()));
+                }
+                return Ok(());
+            }
             6 => {
                 // everything that is left is visited exactly once, in order of position; a second call visits nothing
                 // (sources of astronomical length are left out: if the cursor is wrong there, for_each never ends)
@@ -844,7 +860,9 @@ pub fn cmd_grid(a: &Args) -> i32 {
     let nshards = a.u64("nshards", 1);
     let only = a.get("only").map(|s| s.split(':').next().unwrap().parse::<u64>().unwrap());
     let reduced = a.flag("reduced");
-    let only_cont = a.get("only-cont").map(|s| s.parse::<u64>().unwrap());
+    let only_cont: Option<Vec<u64>> = a.get("only-cont").map(|s| s.split(',').map(|x| x.parse::<u64>().unwrap()).collect());
+    // ranges within 8 of usize::MAX are the territory of the open finding F6b: only the C16 check looks at them
+    let skip_near_max = a.flag("skip-near-max");
     if a.flag("boxed") {
         BOXED.store(true, Relaxed);
     }
@@ -870,7 +888,7 @@ pub fn cmd_grid(a: &Args) -> i32 {
             .set("prefix", J::s(["none", "1", "len-1", "len"][gc.prefix as usize]))
             .set("chunk_size", J::S(sz(gc.n, range.map(|(x, y)| y.saturating_sub(x)).unwrap_or(len))))
             .set("style", J::s(if gc.buffered { "buffered" } else { "one-shot" }))
-            .set("continuation", J::s(["next x3", "chunk(2);next", "len;next;len", "skip;next;len", "into_seq_iter", "chunk(MAX);next x3", "for_each(1) x2;enumerate_for_each(1);fold(2)"][gc.cont as usize]));
+            .set("continuation", J::s(["next x3", "chunk(2);next", "len;next;len", "skip;next;len", "into_seq_iter", "chunk(MAX);next x3", "for_each(1) x2;enumerate_for_each(1);fold(2)", "skip x2;next;chunk;skip;len"][gc.cont as usize]));
         let res = catch_unwind(AssertUnwindSafe(|| with_kind(kind, len, salt, hint, range, GridVisitor { gc })));
         let mut problems: Vec<String> = Vec::new();
         match res {
@@ -920,7 +938,7 @@ pub fn cmd_grid(a: &Args) -> i32 {
             let len = y.saturating_sub(x);
             for n in chunk_sizes(len) {
                 for prefix in 0..4u8 {
-                    for cont in 0..7u8 {
+                    for cont in 0..8u8 {
                         for buffered in [false, true] {
                             todo.push(("range".into(), len, Some((x, y)), Hint::Exact, GridCase { prefix, n, buffered, cont }));
                         }
@@ -934,7 +952,7 @@ pub fn cmd_grid(a: &Args) -> i32 {
         for len in [0usize, 1, 2, 5, 8] {
             for n in chunk_sizes(len) {
                 for prefix in 0..4u8 {
-                    for cont in 0..7u8 {
+                    for cont in 0..8u8 {
                         for buffered in [false, true] {
                             if buffered && kinds::is_wrapped(kind) && n > 4096 {
                                 // documented: the wrapper over an arbitrary iterator allocates chunk_size slots
@@ -952,7 +970,7 @@ pub fn cmd_grid(a: &Args) -> i32 {
     }
     let total = todo.len();
     for (kind, len, range, hint, gc) in todo {
-        let my = idx % nshards == shard && only.map(|o| o == idx).unwrap_or(true) && only_cont.map(|c| c == gc.cont as u64).unwrap_or(true);
+        let my = idx % nshards == shard && only.map(|o| o == idx).unwrap_or(true) && only_cont.as_ref().map(|c| c.contains(&(gc.cont as u64))).unwrap_or(true) && !(skip_near_max && range.map(|(x, y)| y.saturating_sub(x) >= M - 7).unwrap_or(false));
         if my && (!reduced || idx % 37 == 0) {
             let (desc, problems) = run(&kind, len, range, hint, gc, idx);
             cases += 1;
@@ -972,7 +990,15 @@ pub fn cmd_grid(a: &Args) -> i32 {
                         replay.push("--boxed=1".into());
                     }
                     replay.push(format!("--only={}", idx));
-                    let props: &[&str] = if gc.cont == 6 { &["C16", "C12"] } else { &["C16"] };
+                    let props: &[&str] = match gc.cont {
+                        0 | 5 => &["C16", "C05"],
+                        1 => &["C16", "C03"],
+                        2 => &["C16", "C11"],
+                        3 => &["C16", "C06"],
+                        4 => &["C16", "C10"],
+                        6 => &["C16", "C12"],
+                        _ => &["C16", "C06", "C05"],
+                    };
                     let mut j = violation_json("GRID", props, &problems.join("; "), desc, replay);
                     j.put("kind", J::s(&kind));
                     j.put("len", J::u(len));
@@ -1004,7 +1030,7 @@ pub fn cmd_grid(a: &Args) -> i32 {
         .set("grid_size", J::u(total))
         .set("cases", J::u64(cases))
         .set("distinct_nontrivial", J::u64(nontrivial))
-        .set("exhaustive", J::B(!reduced && only.is_none() && only_cont.is_none()))
+        .set("exhaustive", J::B(!reduced && only.is_none() && only_cont.is_none() && !skip_near_max))
         .set("debug_assertions", J::B(cfg!(debug_assertions)))
         .set("per_kind", J::from_map(&per_kind))
         .set("violations", J::u64(violations))
